@@ -228,7 +228,7 @@ func probesFor(rng interface {
 	// valid hello, too slow: the last byte arrives after 31 virtual seconds
 	addf("too-slow", func() o4.ProbeScript {
 		hs := hello(b.Ref, pad(), o4.Hours(0))
-		return o4.ProbeScript{Segments: split(hs.Bytes, len(hs.Bytes)-1), Gaps: []time.Duration{0, 31 * time.Second}, CloseAfter: never}
+		return o4.ProbeScript{Segments: split(hs.Bytes, len(hs.Bytes)-1), Gaps: []time.Duration{0, 31*time.Second + 500*time.Millisecond}, CloseAfter: never}
 	})
 	// mark+MAC beyond 8192
 	addf("mark-beyond-8192", func() o4.ProbeScript {
@@ -266,6 +266,31 @@ func TestCheck(t *testing.T) {
 				c.Violation("setup/server-factory", err.Error(), nil)
 				return
 			}
+			var D time.Duration = -1
+			var Dclass string
+			// (first thing on the fresh factory, while its replay filter is empty)
+			// a prober that holds a connection open while a genuine client
+			// completes, and then replays that client's hello on the connection
+			// it already had (the handshakes finish in another order than the accepts)
+			{
+				key := ref.NewKeypair(o4.RandReader{R: rng})
+				pad := make([]byte, ref.ClientMinPad+rng.IntN(1000))
+				hh := ref.BuildClientHello(b.Ref, key, pad, o4.Hours(0))
+				ps := o4.ProbeScript{Segments: [][]byte{hh.Bytes}, Gaps: []time.Duration{5 * time.Second}, CloseAfter: -1}
+				var held *o4.ProbeResult
+				hd := make(chan struct{})
+				c.Go(func() { close(hd) }, func() { held = o4.RunProbe(c, sf, ps) })
+				time.Sleep(time.Second)
+				gen := o4.RunProbe(c, sf, o4.ProbeScript{Segments: [][]byte{hh.Bytes}, CloseAfter: -1})
+				if !gen.Accepted {
+					c.Violation("control/valid-handshake-refused", "a fresh valid hello was refused while another connection was pending", nil)
+				} else {
+					gen.Conn.Close()
+					gen.Client.Close()
+				}
+				<-hd
+				judge(c, r, sf, b, bi, -1, probe{class: "replay-on-held-connection", ps: ps}, held, &D, &Dclass)
+			}
 			// positive control + the hello to replay
 			cw, sw := memwire.Pair(memwire.Options{Keep: true})
 			accepted := make(chan error, 1)
@@ -289,8 +314,6 @@ func TestCheck(t *testing.T) {
 			// replays first (while the hello is certainly inside its hour window) and last
 			probes = append([]probe{{class: "replay", mk: func() o4.ProbeScript { return rp1 }}}, probes...)
 			probes = append(probes, probe{class: "replay", mk: func() o4.ProbeScript { return rp2 }})
-			var D time.Duration = -1
-			var Dclass string
 			for pi, pr := range probes {
 				pr.ps = pr.mk()
 				res := o4.RunProbe(c, sf, pr.ps)
